@@ -466,6 +466,10 @@ func (fr *frame) unop(in *ssa.UnOp) Value {
 	case token.XOR:
 		return x.ts.BNot(v.(*Term))
 	case token.ARROW:
+		if _, ok := v.(ChanV); ok {
+			// receive from time.After: the poll delay is a no-op
+			return x.zero(in.Type())
+		}
 		x.unsupported("channel receive")
 	}
 	x.unsupported("unop " + in.Op.String())
